@@ -30,22 +30,20 @@ def main(run):
 
 
 def replay(run, path):
-    j = json.load(open(path))
-    rp = j.get("replay") or {}
+    """also the replay of the T01 stage inside C02 / C03 (run.prop is the host then): common.replay_begin"""
+    j, rp = replay_load(path)
+    if "theorem_file" in rp and "case" not in rp:
+        return replay_theorem(run, path, j, rp)
     print(j.get("what"))
     c = rp.get("case")
-    if not c:
-        print(json.dumps(j, indent=1, ensure_ascii=False)[:6000])
-        return 0
+    if not (isinstance(c, dict) and "kind" in c and "text" in c):
+        return replay_print(j)
     print("journal:\n%s\nscale %s, listed accounts %s" % (c["text"], rp.get("scale"), rp.get("listed_accounts")))
     print("first differing character: %s\nimplementation: %r\nmodel:          %r" % (rp.get("first_differing_character"), rp.get("implementation_around"), rp.get("model_around")))
     harness_build()
     st = T.new_stats()
     T.check_cases(run, [dict(c)], st)
     for what, rep, found in run.violations:
-        print("REPRODUCED: %s (no failing input: correspondence only)" % what)
         print("implementation text now:\n" + rep["implementation_text"])
         print("model text now:\n" + rep["model_text"])
-    if not run.violations:
-        print("not reproduced: the texts are equal now (compared=%d)" % st["compared"])
-    return 1 if run.violations else 0
+    return replay_verdict(run, path, j, "T01 stage: the %s report text is the model's text now (compared=%d, stages=%s)" % (c["kind"], st["compared"], st["stages"]))
